@@ -298,6 +298,56 @@ def r11_10(chk, facts):
                     A.strip_targs(fn.get('cls') or fn['n']).split('::')[-1], A.text(o) if o is not None else '?', A.callee_name(c)), None, fn['q'])
     chk.require(n >= 12, 'R11.10: only %d annotation tests found' % n)
 
+# validators whose child contexts may inherit the flags without an effect on any verdict, each with the reason
+R11_11_EXEMPT = {
+    'items_validator': '`items` applies its subschema to every element it reaches and reports all of them as evaluated itself; indices recorded by an element are '
+                       'a subset of that, and names recorded by an element cannot be asked of an array',
+    'items_keyword': 'as items_validator (the 2020-12 form, after prefixItems)',
+}
+
+def r11_11(chk, facts):
+    """What is evaluated inside a member or an element is not evaluated in the object or array that holds it."""
+    chk.rule('R11.11', 'child-value contexts: an eval_context under which a validator validates a *part* of the instance (a member value, an '
+                       'element: the instance argument of the nested validate() is not the validator\'s own instance parameter) is built '
+                       'with fresh evaluation flags (third constructor argument `evaluation_flags{}`); built without it the child inherits '
+                       'require_evaluated_properties/items and what is evaluated inside the child is recorded as evaluated in the parent, '
+                       'which unevaluatedProperties / unevaluatedItems then accepts', floor=9)
+    n = 0; seen = set()
+    for fn in facts.functions:
+        if fn.get('body') is None or fn.get('dep') or not fn['file'].endswith('keyword_validator.hpp') or (fn['file'], fn['l']) in seen: continue
+        inst = [p_ for p_ in fn['params'] if p_['n'] == 'instance' or (len(fn['params']) >= 2 and p_ is fn['params'][1])]
+        ctxs = {d['id']: d for d in A.walk_no_lambda(fn['body']) if d.get('k') == 'VarDecl' and 'eval_context' in F.tname(fn, d.get('t')) and d.get('init') is not None}
+        if not ctxs or not inst: continue
+        inst_ids = set(p_['id'] for p_ in fn['params'] if 'basic_json' in F.tname(fn, p_['t']) and 'eval_context' not in F.tname(fn, p_['t']))
+        child = {}
+        for c in A.calls_in(fn['body'], no_lambda=True):
+            if c.get('k') != 'CXXMemberCallExpr' or A.callee_name(c) != 'validate' or len(c.get('args') or []) < 2: continue
+            a0 = A.strip(c['args'][0], casts=True); a1 = A.strip(c['args'][1], casts=True)
+            if a0 is None or a0.get('k') != 'DeclRefExpr' or a0.get('id') not in ctxs or a1 is None: continue
+            if a1.get('k') == 'DeclRefExpr' and a1.get('id') in inst_ids: continue      # the same instance: annotations belong to it
+            # a value made up for the test (propertyNames validates the member *name* as a string): not a part of the instance, and a
+            # string has neither members nor elements to report
+            if any(y.get('k') in ('CXXConstructExpr', 'CXXTemporaryObjectExpr', 'CXXFunctionalCastExpr') and 'basic_json' in (y.get('cq') or F.tname(fn, y.get('t'))) for y in A.walk(c['args'][1])): continue
+            child.setdefault(a0['id'], c)
+        if not child: continue
+        seen.add((fn['file'], fn['l']))
+        chk.analysed(fn)
+        short = A.strip_targs(fn.get('cls') or fn['n']).split('::')[-1]
+        for cid, call in sorted(child.items()):
+            d = ctxs[cid]
+            n += 1
+            if short in R11_11_EXEMPT:
+                chk.ok('R11.11', U.site(fn, 'child context %s@%d (exempt)' % (d.get('n'), d.get('l', 0) - fn['l'])), {'exempt': R11_11_EXEMPT[short]}); continue
+            ce = next((y for y in A.walk(d['init']) if y.get('k') in ('CXXConstructExpr', 'CXXTemporaryObjectExpr') and 'eval_context' in (y.get('cq') or F.tname(fn, y.get('t')))), None)
+            args = (ce or {}).get('args') or []
+            fresh = len(args) >= 3 and any(y.get('k') in ('CXXConstructExpr', 'CXXTemporaryObjectExpr', 'InitListExpr', 'CXXScalarValueInitExpr', 'CXXFunctionalCastExpr') and not (y.get('args') or []) for y in A.walk(args[2]))
+            site = U.site(fn, 'child context %s@%d' % (d.get('n'), d.get('l', 0) - fn['l']))
+            if fresh: chk.ok('R11.11', site, {'line': d.get('l'), 'validates': A.text(call['args'][1])[:30]})
+            else:
+                chk.fail('R11.11', site, fn['file'], d.get('l'), '%s validates `%s`, a part of the instance, under `%s` built with %d argument(s) and no fresh evaluation_flags{}: names and indices evaluated '
+                         'inside the child are credited to the parent' % (A.strip_targs(fn.get('cls') or fn['n']).split('::')[-1], A.text(call['args'][1])[:30], d.get('n'), len(args)), None, fn['q'])
+    chk.require(n >= 9, 'R11.11: only %d child-value contexts found' % n)
+
 def run(chk, tier, only_rule=None):
     chk.explanation = EXPLANATION
     chk.not_decided = NOT_DECIDED
@@ -313,6 +363,7 @@ def run(chk, tier, only_rule=None):
     r11_8(chk, facts)
     r11_9(chk, facts)
     r11_10(chk, facts)
+    r11_11(chk, facts)
     voc = vocab()
     # keywords looked up by the shared layers every dialect factory delegates to
     shared = {}
